@@ -126,6 +126,7 @@ macro_rules! c15_new {
 c15_new!(c15_new_nonverbose_noext, Shape { storage: false, htyp: H_MIN, msin: 0, ids: IDS_FULL, payload: P::NonVerbose(3) }, true);
 c15_new!(c15_new_nonverbose_ext_be, Shape { storage: false, htyp: H_ALL_BE, msin: M_LOG_WARN_NV, ids: IDS_SHORT, payload: P::NonVerbose(0) }, true);
 c15_new!(c15_new_control, Shape { storage: false, htyp: H_EXT_LE, msin: M_CTRL_RESP, ids: IDS_FULL, payload: P::Control(2) }, false);
+c15_new!(c15_new_verbose_u16, Shape { storage: false, htyp: H_EXT_BE, msin: M_LOG_INFO_V, ids: IDS_FULL, payload: P::Verbose(&[arg(AK::U(2))]) }, false);
 c15_new!(c15_new_verbose_two_args, Shape { storage: false, htyp: H_EXT_BE, msin: M_LOG_INFO_V, ids: IDS_FULL, payload: P::Verbose(&[arg(AK::U(1)), arg(AK::Bool)]) }, false);
 c15_new!(c15_new_verbose_string, Shape { storage: false, htyp: H_ALL_LE, msin: M_APP_V, ids: IDS_FULL, payload: P::Verbose(&[arg(AK::Str)]) }, true);
 c15_new!(c15_new_nettrace_le, Shape { storage: false, htyp: H_EXT_LE, msin: M_NW_CAN_V, ids: IDS_FULL, payload: P::NetTrace(&[2, 1]) }, false);
